@@ -38,7 +38,9 @@ COMMENTS = [
     "before:\x0bi_old = 1", "page\x0cx = 2", "fs\x1cq_new = 3", "gs\x1dstates(u=1)", "rs\x1edx_dt = 0", "nel\x85i_old = 1",
     "ls\u2028i_old = x", "ps\u2029parameters(k=1)",
 ]
-DESCRIPTIONS = ["membrane potential", "old\x0bvalue = 3", "see\u2028x = 1", "conductance of the \\\"late\\\" current", "rate (1/ms)", "it's a gate", "a, b; c", "50% block", ""]
+DESCRIPTIONS = ["membrane potential", "old\x0bvalue = 3", "see\u2028x = 1",
+                # backslashes that are no Python escape sequences (a description is text, not a Python literal)
+                "time constant \\xi", "see C:\\users\\me\\fit.csv", "called \\Upsilon in the paper", "a \\N{dash} here", "conductance of the \\\"late\\\" current", "rate (1/ms)", "it's a gate", "a, b; c", "50% block", ""]
 UNITS = ["mV", "ms", "1/ms", "uA/cm**2", "mM", "1", "nonsense_unit", "ms**-1"]
 
 
@@ -209,6 +211,21 @@ def main(argv=None):
             if cd.err is not None or view(cd) != base_view0:
                 rep.violation(f"the comment {cm[:60]!r} ({where}) changes the model: {cd.err or 'component membership / layout differ'}",
                               {"kind": "direct", "text": base, "decorated": deco, "decoration": where, "error": cd.err})
+    # ---- directed: every description and unit string once as an annotation of a state and of a parameter of the fixed model
+    for kind_, strings in (("description", DESCRIPTIONS), ("unit", UNITS)):
+        for st_ in strings if cb is not None and cb.err is None else []:
+            ann = f'{kind_}="{st_}"'
+            deco = (f"states(x=ScalarParam(1, {ann}), y=2)\nparameters(p=ScalarParam(2, {ann}))\na = p*x\ndx_dt = a - y\ndy_dt = -y + a\n")
+            rep.case(key=("annotation", kind_, st_), nontrivial=True)
+            rep.count("corpus:" + kind_)
+            try:
+                cd = load_with_timeout(drv, deco)
+            except LoadTimeout:
+                rep.violation(f"loading does not finish within 20 s with the annotation {ann[:60]!r}", {"kind": "direct", "text": base, "decorated": deco, "decoration": kind_})
+                continue
+            if cd.err is not None or view(cd) != base_view0:
+                rep.violation(f"the annotation {ann[:60]!r} changes the model: {cd.err or 'component membership / layout differ'}",
+                              {"kind": "direct", "text": base, "decorated": deco, "decoration": kind_, "error": cd.err})
     kinds = ["comment_lines", "trailing", "annotations", "blank_lines", "indentation", "crlf", "crlf_blank_lines", "continuation"]
     for i in range(n):
         got = family.new_case(drv, rng, gen, rep, n_comps=rng.choice([1, 2, 3]))
